@@ -91,6 +91,9 @@ pub fn h_symmetrical<S: Src>(s: &mut S) {
     let r = Tolerance::symmetrical(c, h);
     s.check(post_symmetrical(c, h, &r), "symmetrical: bounds are centre -/+ |half width|");
     s.check(post_symmetrical_ordered(c, h, &r), "symmetrical: ordered zone containing a finite centre");
+    if c.is_finite() && !h.is_nan() {
+        s.check(r.conforms(c), "the nominal centre conforms to its own symmetrical zone");
+    }
 }
 pub fn h_symmetrical_ordered<S: Src>(s: &mut S) {
     let c = s.f64();
@@ -127,6 +130,9 @@ pub fn h_center<S: Src>(s: &mut S) {
     let r = t.center();
     s.check(post_center(&t, r), "center == (upper + lower) / 2");
     s.check(post_center_inside(&t, r), "center lies in the zone (ordered bounds within +-MAX/2)");
+    if center_domain(&t) {
+        s.check(t.conforms(r), "the centre of an ordered zone conforms");
+    }
 }
 pub fn h_center_inside<S: Src>(s: &mut S) {
     let t = any_tol(s);
